@@ -331,7 +331,7 @@ def run(ctx):
                      common.BoolParameter)
     ints = [0, 1, -1, 2, 7, 255, -128, 2 ** 31, -2 ** 63, 2 ** 64, 2 ** 70, -2 ** 70 + 1, 65535]
     floats = [0.0, -0.0, 1.0, -1.5, 0.1, 1e-310, 5e-324, 1.7976931348623157e308, math.inf, -math.inf, math.nan, 2.5, 1e16, -3.0]
-    strs = ["", "A", "OFF", "ON_1", "héllo", "日本", "a\x00b", "\x00", "12", "3.5", " pad ", "%s", "A" * 40, "\U0001F680x"]
+    strs = ["e\u0301", "\u2126", "\u212b", "\u1100\u1161", "", "A", "OFF", "ON_1", "héllo", "日本", "a\x00b", "\x00", "12", "3.5", " pad ", "%s", "A" * 40, "\U0001F680x"]
     byts = [b"", b"\x00", b"\x00\x00", b"A", b"abc\x00", b"\xff\xfe", b"\x80", b"12", bytes(range(256)), b"\x00A\x00", b"%s"]
     raws = [None, 0, 1, -1, 0.0, 2.5, b"", b"\x00\x01", "", "x", False, 2 ** 70]
 
